@@ -112,6 +112,9 @@ def run_property(prop, pc, kf, tier, seed, sc, t0):
         sem_all = [f for f in bv['failures'] if f['semantic']]
         # a function whose injected proof hints were lost gives no Verus verdict when it fails: undecided, handed to Kani
         sem = [f for f in sem_all if f['function'] not in degraded]
+        for m in bv['metas']:
+            if m.get('lost_hints') and (prop in m['props'] or (prop == 'C11' and m.get('contract_file'))):
+                undecided.append('%s::%s not verified this run: proof hints lost (%s)' % (bv['unit'], m['function'], '; '.join(m['lost_hints'][:3])))
         for f in sem_all:
             if f['function'] in degraded:
                 undecided.append('%s::%s (%s; proof hints lost: %s)' % (bv['unit'], f['function'], f['kind'], '; '.join([m for mm in bv['metas'] if mm['function'] == f['function'] for m in mm['lost_hints']][:3])))
